@@ -818,6 +818,12 @@ func (vfs *OrefaFS) Rename(oldname, newname string) error {
 		return &os.LinkError{Op: op, Old: oldname, New: newname, Err: err}
 	}
 
+	// The root directory can't be renamed and a directory can't be moved into itself.
+	if oChild.mode.IsDir() &&
+		(oChild == oParent || strings.HasPrefix(nAbsPath, oAbsPath+string(vfs.PathSeparator()))) {
+		return &os.LinkError{Op: op, Old: oldname, New: newname, Err: vfs.err.InvalidArgument}
+	}
+
 	nParent.mu.Lock()
 	defer nParent.mu.Unlock()
 
